@@ -441,10 +441,8 @@ def _do_rewrite(source: str, rewrite: _Rewrite, *, fix_function_name: str = "") 
     else:
         for node in core.walk(new_code_ast, (ast.Constant(value=str), ast.JoinedStr)):
             node_code = core.get_code(node, new_code)
-            if any(
-                node_code.startswith(prefix) and node_code.endswith(prefix[-3:])
-                for prefix in ("b'''", "r'''", "f'''", "'''", 'b"""', 'r"""', 'f"""', '"""')
-            ):
+            quote = node_code.lstrip("bBfFrRuU")[:3]  # Any string prefix, e.g. rb, F, Rf, u
+            if quote in ("'''", '"""') and node_code.endswith(quote):
                 for lineno in range(node.lineno, node.end_lineno):
                     indents[lineno] = 0
 
